@@ -144,10 +144,6 @@ class SimTime:
 # ---------------------------------------------------------------------------
 # sqlite3
 
-class SimCursorList:
-    pass
-
-
 class SimConn:
     """Wraps a real connection opened with timeout=0, check_same_thread=False.
     The busy timeout is emulated in virtual time (DESIGN.md 3.3)."""
